@@ -261,9 +261,9 @@ def gen_id_item(rng, cur):
 
 
 SEPS = [(",", 38), (" ", 14), ("\t", 10), (", ", 7), (" ,", 5), (" , ", 5), ("  ", 5), ("\t ", 4), (",,", 3), ("\t\t", 2),
-        (",\t", 1), (", ,", 2), ("   ,  ", 1), (" \t", 1), ("\t,", 1), (",  ", 1)]
-LEAD = [("", 80), (" ", 7), (",", 5), ("  ", 3), ("\t", 2), (" ,", 2), (", ", 1)]
-TRAIL = [("", 72), (" ", 8), (",", 7), (", ", 3), ("\t", 2), (",,", 2), ("  ", 2), (" ,", 2), (" \t", 1), ("\t ", 1)]
+        (",\t", 1), (", ,", 2), ("   ,  ", 1), (" \t", 0.25), ("\t,", 1), (",  ", 1)]
+LEAD = [("", 82), (" ", 7), (",", 5), ("  ", 3), ("\t", 0.7), (" ,", 2), (", ", 1)]
+TRAIL = [("", 74), (" ", 8), (",", 7), (", ", 3), ("\t", 0.7), (",,", 2), ("  ", 2), (" ,", 2), (" \t", 0.2), ("\t ", 0.5)]
 
 
 def wchoice(rng, table):
@@ -372,7 +372,7 @@ def gen_read_case(rng: random.Random):
     if rng.random() < 0.2:
         pos = rng.randint(0, len(lines))
         c = ic if ic not in "@^\\" else rng.choice(["#", "A comment", " text", "@x"])
-        extra.append((pos, c + rng.choice([" skipped 1,2,3", "1,2", "", " \t"])))
+        extra.append((pos, c + rng.choice([" skipped 1,2,3", "1,2", "", " x"])))
     if rng.random() < 0.06:
         extra.append((rng.randint(0, len(lines)), "#" + "1,2"))
     if rng.random() < 0.07:
@@ -461,7 +461,9 @@ def corpus_cases():
         _rc("1,2\n", ["A", "B"], ic="^"),
         # missing-data token in ID
         _rc("-99,1\n1,3\n", ["ID", "B"]),
-        _rc("-99,1\n1,3\n-99,2\n", ["ID", "B"]),         # reused ids (NaN) are renumbered: no error
+        _rc("-99,1\n1,3\n-99,2\n", ["ID", "B"]),
+        _rc("1e400,1\n", ["ID", "B"]),
+        _rc("-0,1\n2,3\n", ["ID", "B"]),         # reused ids (NaN) are renumbered: no error
         # signed comparison value reached with no rows left
         _rc("1,2\n3,4\n", ["A", "B"], mode=1, filters=[["A", "sne", "x", "A.NE.x"], ["B", "ge", "-3", "B.GE.-3"]]),
         # filters in order: the illegal item is ignored before the numeric comparison needs it
@@ -852,8 +854,13 @@ def ref_read(case, emu=frozenset()):
                 if chg[i]:
                     k += 1
                 out[i][j] = ("f", float(k), Fraction(k))
-        elif None in vals and "id-nan" in emu:
+        elif (None in vals or any(math.isinf(v) for v in vals if v is not None)) and "id-nan" in emu:
             return ["err", "IntCastingNaNError"]
+        cur = [out[i][j] for i in range(len(out))]
+        if all(c[0] == "f" and math.isfinite(c[1]) and c[1] == int(c[1]) and abs(c[1]) < 2 ** 31 for c in cur):
+            for i, c in enumerate(cur):      # the column becomes int32: -0.0 is stored as 0
+                if c[1] == 0:
+                    out[i][j] = ("f", 0.0, Fraction(0))
     if "TIME" in names and not any(x in names for x in special[1:]):
         j = names.index("TIME")
         try:
